@@ -48,6 +48,7 @@ def run(ctx):
                           dict(rep, full=out["full"], times=req["times"][:40], cols=[c[:40] for c in req["cols"]],
                                kind=req["kind"], extinct=req["extinct"]))
     wide_range_weights(ctx)
+    self_loops(ctx, drv)
 
 
 def wide_range_weights(ctx):
@@ -90,3 +91,80 @@ def wide_range_weights(ctx):
             bad.append("times decrease / are not finite")
         if bad:
             ctx.violation("%s: %s" % (sim, "; ".join(bad)), dict(rep, final=[int(S[-1]), int(I[-1]), int(R[-1])], rows=len(t)))
+
+
+def self_loops(ctx, drv):
+    """contact networks WITH SELF-LOOPS (what `nx.configuration_model` produces; `Gillespie_SIS` carries an explicit
+    special case for them): every simulator that takes a plain graph must still return a well-formed trajectory.  Real
+    seeded generators; the Lean predicate `Pred.wellFormed` is evaluated on the returned arrays, and the arrays of the
+    same seeded run with `return_full_data=True` must describe the same trajectory."""
+    import random
+    import networkx as nx, numpy as np, EoN
+    from common import rs
+    from allsims import KIND
+    sims = ["Gillespie_SIS", "Gillespie_SIR", "fast_SIS", "fast_SIR", "basic_discrete_SIR", "basic_discrete_SIS"]
+    reqs, metas = [], []
+    for k in range(ctx.scale(120, 900)):
+        r = ctx.rng
+        seed = r.randrange(10 ** 9)
+        sim = sims[k % len(sims)]
+        n = r.randint(2, 8)
+        G = nx.gnp_random_graph(n, r.choice([0.3, 0.5, 0.9]), seed=seed)
+        loops = r.sample(list(G), r.randint(1, n))
+        G.add_edges_from((u, u) for u in loops)
+        weighted = sim in ("Gillespie_SIS", "Gillespie_SIR", "fast_SIS", "fast_SIR") and r.random() < 0.5
+        kw = {}
+        if weighted:
+            for e in G.edges():
+                G.edges[e]["w"] = r.choice([0.5, 1.0, 2.0])
+            for u in G:
+                G.nodes[u]["r"] = r.choice([0.5, 1.0, 2.0])
+            kw = dict(transmission_weight="w", recovery_weight="r")
+        infs = r.sample(list(G), r.randint(1, max(1, n // 2)))
+        tmin = r.choice([0, 0, 2])
+        disc = KIND[sim].endswith("Disc")
+        tmax = tmin + (r.choice([2, 4, 6]) if disc else r.choice([1, 3, 8]))
+        rep = dict(entry=sim, stream="self-loops", n=n, edges=[list(e) for e in G.edges()], loops=loops, weighted=weighted, infs=infs,
+                   seed=seed, tmin=tmin, tmax=tmax)
+        ctx.count("self-loops:" + sim)
+
+        def call(full):
+            random.seed(seed); np.random.seed(seed % 2 ** 32)
+            if sim.startswith("basic_discrete"):
+                return getattr(EoN, sim)(G, 0.5, initial_infecteds=infs, tmin=tmin, tmax=tmax, return_full_data=full)
+            return getattr(EoN, sim)(G, 1.0, 1.0, initial_infecteds=infs, tmin=tmin, tmax=tmax, return_full_data=full, **kw)
+        try:
+            out = call(False)
+            full = call(True)
+            ft, fD = full.summary()
+            fs = [ft] + [fD[x] for x in ("SIR" if KIND[sim].startswith("sir") else "SI")]
+        except Exception as e:
+            ctx.case(rep, nontrivial=False)
+            ctx.violation("%s raised %s on a graph with self-loops" % (sim, type(e).__name__), dict(rep, error=repr(e)[:200]))
+            continue
+        times, cols = out[0], out[1:]
+        if not all(np.isfinite(times)) or any(float(x) != int(x) for c in cols for x in c):
+            ctx.case(rep, nontrivial=False)
+            ctx.violation("%s returned non-finite times or non-integer counts on a graph with self-loops" % sim, rep)
+            continue
+        # the node histories of the same seeded run: every entry after the first is one node making one move; the count of
+        # infected nodes they imply at the end must be the array's
+        hist_I = 0
+        for u in G:
+            hs = full.node_history(u)[1]
+            hist_I += 1 if hs and hs[-1] == "I" else 0
+        if not disc and int(fs[2][-1]) != hist_I:
+            ctx.violation("%s on a graph with self-loops: the last row counts %d infected nodes, the node histories of the same run end with %d"
+                          % (sim, int(fs[2][-1]), hist_I), dict(rep, last_I=int(fs[2][-1]), hist_I=hist_I))
+        if not disc and (list(map(float, fs[0])) != list(map(float, times)) or any(list(map(int, a)) != list(map(int, b)) for a, b in zip(fs[1:], cols))):
+            ctx.violation("%s on a graph with self-loops: arrays and full-data summary of the same seeded run differ" % sim, rep)
+        reqs.append(dict(op="wf", kind=KIND[sim], N=n, tmin=str(tmin), tmax=str(tmax), extinct=False, collapsed=False,
+                         times=[rs(float(x)) for x in times], cols=[[int(x) for x in c] for c in cols]))
+        metas.append((rep, times, cols))
+    for (rep, times, cols), rq, resp in zip(metas, reqs, drv.batch(reqs)):
+        ctx.case(rep, nontrivial=len(times) > 1)
+        if not resp.get("ok"):
+            ctx.disagreement("wf-driver", dict(rep, resp=resp))
+        elif not resp["holds"]:
+            ctx.violation("%s returned a trajectory that is not well-formed on a graph with self-loops" % rep["entry"],
+                          dict(rep, times=rq["times"][:40], cols=[c[:40] for c in rq["cols"]], kind=rq["kind"]))
